@@ -3,7 +3,7 @@
 META = {
     'level': 'exploration',
     'rule': ('Random histories (length <= 8 quick / <= 15 thorough) of run_tasks(subset, bust_cache?), '
-             'uncache_tasks(subset), is_cached, cached_tasks over a universe of 3-8 dependent tasks of types {Pickle '
+             'uncache_tasks(subset), is_cached, cached_tasks - 30 % of the runs with failing tasks, whose stored entries must stay exactly as they were - over a universe of 3-8 dependent tasks of types {Pickle '
              'cache, JSON cache, cache=None, max_parallel=1} x storage {LocalStorage, str path, fsspec-local, '
              'fsspec-memory (serial), storage=None} x backend {serial mostly, fork, spawn}. After every operation the '
              'observable state (is_cached of every universe task, key set behind cached_tasks, returned values, set '
@@ -36,7 +36,11 @@ def gen_history(rng, names, maxlen):
         r = rng.random()
         sub = rng.sample(names, rng.randrange(1, len(names) + 1))
         if r < 0.55:
-            ops.append(['run', sub, rng.random() < 0.25])
+            op = ['run', sub, rng.random() < 0.25]
+            if rng.random() < 0.3:
+                # some tasks of this run fail: nothing stored for them may change
+                op.append(rng.sample(names, rng.randrange(1, min(2, len(names)) + 1)))
+            ops.append(op)
         elif r < 0.85:
             ops.append(['uncache', sub])
         else:
@@ -105,10 +109,15 @@ def run_history(rep, case):
             if rep is not None:
                 rep.count('op_' + op[0])
             if op[0] == 'run':
-                _, sub, bust = op
+                sub, bust = op[1], op[2]
+                failing = set(op[3]) if len(op) > 3 else set()
                 gen += 1
-                engine.write_plan(ctl, gen)
+                engine.write_plan(ctl, gen, {n: {'act': 'raise:ValueError'} for n in failing})
                 E, L = plan(spec, sub, set(cache), bust)
+                from vlab.model import taint
+                tainted = taint(spec, failing & E, E)
+                if failing & E:
+                    rep.count('runs_with_failing_tasks')
                 newv = {}
 
                 def val(n):
@@ -121,7 +130,8 @@ def run_history(rep, case):
                     newv[n] = combine(t['type'], n, t['p'], deps, ctx_digest({}), gen)
                     return newv[n]
                 for n in E:
-                    val(n)
+                    if n not in tainted:
+                        val(n)
                 pre = len(events.read_events(ctl))
                 b = shared or Built(spec)
                 if case.get('fresh_lab'):
@@ -141,7 +151,7 @@ def run_history(rep, case):
                     if w:
                         bad.append(('null-storage-wrote', f'op {i}: storage=None but files opened for writing: {w[:3]}'))
                 got = [(t.name, tuple(base_of(v))) for t, v in res.items()]
-                want = [(n, tuple(val(n))) for n in dedup(sub)]
+                want = [(n, tuple(val(n))) for n in dedup(sub) if n not in tainted]
                 rep.count('values_compared', len(got))
                 if got != want:
                     bad.append(('wrong-value-or-generation', f'op {i} {op}: returned {got}, model {want}'))
@@ -151,7 +161,7 @@ def run_history(rep, case):
                                 f'(cached before: {sorted(cache)})'))
                 if persists:
                     for n in E:
-                        if cacheable(spec, n):
+                        if cacheable(spec, n) and n not in tainted:
                             cache[n] = newv[n]
             elif op[0] == 'uncache':
                 b = shared or Built(spec)
@@ -185,6 +195,7 @@ def run_shard(rep):
     rep.require('is_cached_checks', 2000)
     rep.require('cached_tasks_checks', 500)
     rep.require('op_uncache', 300)
+    rep.require('runs_with_failing_tasks', 100)
     for j in range(rep.shard, cfg['n'], rep.nshards):
         if rep.expired():
             rep.count('skipped_for_time')
@@ -200,7 +211,7 @@ def run_shard(rep):
         bad = run_history(rep, case)
         nruns = sum(1 for o in case['ops'] if o[0] == 'run')
         rep.case([json.dumps(spec, sort_keys=True), case['ops'], case['storage'], backend],
-                 nruns >= 2 and any(o[0] == 'uncache' or (o[0] == 'run' and o[2]) for o in case['ops']))
+                 nruns >= 2 and any(o[0] == 'uncache' or (o[0] == 'run' and (o[2] or len(o) > 3)) for o in case['ops']))
         rep.seen('storage_x_backend', f"{case['storage']}/{backend}")
         rep.count('histories')
         if case['reuse']:
